@@ -39,15 +39,36 @@ def run(chk, repo: Repo):
     _r4(chk, repo)
 
 
+def _tbl(repo, ci, fn_src, atoms, level=4, keep=None):
+    """decision table of a small dispatch function on its canonical view"""
+    from .common import canon_fn, canon_keep
+    from ..pathtable import table
+    from ..pattern import norm as pn
+    v = canon_keep(repo, ci, fn_src, keep, subst=True) if keep is not None else canon_fn(repo, ci, fn_src, level)
+    return table(v, atoms, pn)
+
+
+def _ct(t):
+    from ..pattern import norm as pn
+    from ..canon import _SymOrder
+    return pn(_SymOrder().visit(ast.parse(t, mode="eval").body))
+
+
 def _r1(chk, repo):
+    from .common import canon_fn, stmts
+    from ..pathtable import walk
+    from ..pattern import norm as pn
     pm = repo.cls("cuqi/model/_model.py:PDEModel")
     ff = repo.method(pm, "_forward_func")[1]
     x = func_params(ff)[1]
-    body = [_norm(s) for s in strip_docstring(ff.body)]
-    want = [f"self.pde.assemble(parameter={x})", "sol,info=self.pde.solve()", "obs=self.pde.observe(sol)", "returnobs"]
-    alt = [f"self.pde.assemble({x})"] + want[1:]
-    chk.add("C18-R1", f"{pm.qual}._forward_func", body in (want, alt), site(repo, ff), "assemble(x); sol, info = solve(); obs = observe(sol); return obs",
-            f"forward map of the PDE model is {body}", ff)
+    v4 = canon_fn(repo, pm, ff, 4)
+    kind, res = walk(v4, {}, pn)
+    first = [s_ for s_ in strip_docstring(v4.body)][:1]
+    asm_ok = bool(first) and pn(first[0]) in (pn(f"self.pde.assemble(parameter={x})"), pn(f"self.pde.assemble({x})"))
+    ok = kind == "return" and _ct(unparse(res)) == _ct("self.pde.observe(self.pde.solve()[0])") and asm_ok
+    chk.decide("C18-R1", f"{pm.qual}._forward_func", ok, kind == "return", site(repo, ff), "assemble(x); sol, info = solve(); obs = observe(sol); return obs",
+               f"forward map of the PDE model is not assemble(parameter) -> solve -> observe(solution): returns `{unparse(res)[:100] if kind == 'return' else kind}`"
+               f"{'' if asm_ok else ' without first assembling at the given parameter'}", ff)
     init = repo.method(pm, "__init__")[1]
     t = _norm(init)
     ok = "super().__init__(self._forward_func,range_geometry,domain_geometry,gradient=self._gradient_func)" in t and "self.pde=PDE" in t
@@ -59,18 +80,29 @@ def _r1(chk, repo):
     chk.add("C18-R1", f"{ss.qual}.assemble", body == [f"self.diff_op,self.rhs=self.PDE_form({p})"], site(repo, asm), "(diff_op, rhs) = PDE_form(parameter)",
             f"assemble is {body}", asm)
     sv = repo.method(ss, "solve")[1]
-    g = CFG(sv)
-    rets = g.returns()
-    ok = len(rets) == 1 and _norm(rets[0].ast.value) == "self._solve_linear_system(self.diff_op,self.rhs,self._linalg_solve,self._linalg_solve_kwargs)"
-    guards = {(_norm(t.ast), lab) for t, lab in g.guards_of(rets[0])} if rets else set()
-    ok = ok and ("hasattr(self,'diff_op')", "T") in guards and ("hasattr(self,'rhs')", "T") in guards
-    chk.add("C18-R1", f"{ss.qual}.solve", ok, site(repo, sv), "refuses when not assembled; solves (diff_op, rhs) with the configured solver",
-            "steady-state solve does not refuse an unassembled PDE or does not solve the assembled system", sv)
+    tb = _tbl(repo, ss, sv, ["hasattr(self,'diff_op')", "hasattr(self,'rhs')"], keep={"_solve_linear_system"})
+    want = _ct("self._solve_linear_system(self.diff_op,self.rhs,self._linalg_solve,self._linalg_solve_kwargs)")
+    bad, und = [], [v_ for v_ in tb.values() if v_[0] == "unknown"]
+    for (A, B), (kind, got) in tb.items():
+        if kind == "unknown":
+            continue
+        if A and B:
+            if not (kind == "return" and got == want):
+                bad.append(f"assembled system is not solved with the configured solver: {kind} `{got}`")
+        elif kind != "raise":
+            bad.append(f"[diff_op present: {A}, rhs present: {B}] an unassembled PDE is not refused ({kind})")
+    chk.decide("C18-R1", f"{ss.qual}.solve", not bad and not und, not und, site(repo, sv), "refuses when not assembled; solves (diff_op, rhs) with the configured solver",
+               "steady-state solve does not refuse an unassembled PDE or does not solve the assembled system: " + "; ".join(bad[:2]), sv)
     pmg = repo.method(pm, "_gradient_func")[1]
-    rets = [_norm(n.value) for n in ast.walk(pmg) if isinstance(n, ast.Return)]
-    ok = rets == ["self.pde.gradient_wrt_parameter(direction,wrt)", "direction@self.pde.jacobian_wrt_parameter(wrt)"] and not CFG(pmg).falls_off_end
-    chk.add("C18-R5", f"{pm.qual}._gradient_func", ok, site(repo, pmg), "gradient_wrt_parameter, else direction @ jacobian_wrt_parameter, else raise",
-            f"PDE gradient dispatch returns {rets}", pmg)
+    d_, w_ = func_params(pmg)[1:3]
+    tb = _tbl(repo, pm, pmg, ["hasattr(self.pde,'gradient_wrt_parameter')", "hasattr(self.pde,'jacobian_wrt_parameter')"])
+    bad, und = [], [v_ for v_ in tb.values() if v_[0] == "unknown"]
+    for (A, B), (kind, got) in tb.items():
+        want = ("return", _ct(f"self.pde.gradient_wrt_parameter({d_},{w_})")) if A else (("return", _ct(f"{d_}@self.pde.jacobian_wrt_parameter({w_})")) if B else ("raise", None))
+        if kind != "unknown" and (kind, got) != want:
+            bad.append(f"[direct product available={A}, Jacobian available={B}] {kind} `{got}`, expected {want[0]} `{want[1]}`")
+    chk.decide("C18-R5", f"{pm.qual}._gradient_func", not bad and not und, not und, site(repo, pmg), "gradient_wrt_parameter, else direction @ jacobian_wrt_parameter, else raise",
+               f"PDE gradient dispatch: {'; '.join(bad[:2])}", pmg)
 
 
 def _r2(chk, repo):
@@ -113,6 +145,8 @@ def _r2(chk, repo):
             if kind is None:
                 kind = "backward" if "_solve_linear_system" in txt else "forward"
             found[kind] = (lp, a, i, tt, LS)
+    from ..pathtable import walk_stmts, _Sub
+    from ..canon import clone as _clone
     for kind in ("forward", "backward"):
         if kind not in found:
             chk.fail("C18-R2", f"{inst}/{kind}_euler", site(repo, sv), f"no store of time level idx+1 found for {kind} Euler", sv)
@@ -125,43 +159,47 @@ def _r2(chk, repo):
             problems.append(f"{kind} Euler iterates `{unparse(lp.iter)}`: the operator and source would be assembled at the "
                             f"{'end' if kind == 'forward' else 'start'} of each step instead of the {'start' if kind == 'forward' else 'end'} "
                             f"(expected {want_iter})")
-        dtp = f"$dt=self.time_steps[{i}+1]-{tt}" if kind == "forward" else f"$dt={tt}-self.time_steps[{i}]"
-        bb, fail = unify([dtp, f"self.assemble_step({tt})", f"$up={u}[:,{i}]"], LS)
-        if bb is None:
-            if it == want_iter or fail > 0:
-                problems.append(["time step is not the difference of the two levels of this step", "operator/source are not re-assembled at the loop's time level in every step",
-                                 "previous level is not column idx"][fail])
-            bb, _ = unify(["$dt=$rhs"], [(t_, a_) for t_, a_ in LS if "time_steps" in t_], distinct=False)
-            bb = bb or {}
-        if "dt" in bb and "up" in bb:
-            dt, up = bb["dt"], bb["up"]
-            eyes = {path_of(x.targets[0]) for x in ast.walk(sv) if isinstance(x, ast.Assign) and isinstance(x.value, ast.Call) and call_name(x.value) == "np.eye" and path_of(x.targets[0])}
-            import re
-            v = _norm(upd.value)
-            vv = re.sub(r"np\.eye\([^()]*(\([^()]*\))?[^()]*\)", "I", v)
-            for e in eyes:
-                vv = re.sub(rf"\b{re.escape(e)}\b", "I", vv)
-            if kind == "forward":
-                ok = vv in (f"({dt}*self.diff_op+I)@{up}+{dt}*self.rhs", f"(I+{dt}*self.diff_op)@{up}+{dt}*self.rhs")
+        # the value stored as level idx+1, with the temporaries of the loop body replaced by their definitions
+        k_upd = next((k for k, st in enumerate(lp.body) if any(x is upd for x in ast.walk(st))), None)
+        fwd = kind == "forward"
+        mval = {_ct("self.method=='forward_euler'"): fwd, _ct("self.method=='backward_euler'"): not fwd,
+                _ct("self.method!='forward_euler'"): not fwd, _ct("self.method!='backward_euler'"): fwd}
+        utxt = unparse(upd)
+        kw_, res_ = walk_stmts(lp.body, mval, norm, {}, stop_pred=lambda a_: unparse(a_) == utxt)
+        if kw_ != "stop":
+            chk.unknown("C18-R2", f"{inst}/{kind}_euler", site(repo, sv), f"the update is not reached on a straight path through the loop body ({kw_}: {res_})", sv)
+            continue
+        env = res_[0]
+        val = _ct(unparse(_Sub(env).visit(_clone(upd.value))))
+        up = f"{u}[:,{i}]"
+        if kind == "forward":
+            dt = f"(self.time_steps[{i}+1]-{tt})"
+            wants = [_ct(f"({dt}*self.diff_op+np.eye(len({up})))@{up}+{dt}*self.rhs"), _ct(f"(np.eye(len({up}))+{dt}*self.diff_op)@{up}+{dt}*self.rhs")]
+        else:
+            dt = f"({tt}-self.time_steps[{i}])"
+            wants = [_ct(f"self._solve_linear_system(np.eye(len({up}))-{dt}*self.diff_op,{up}+{dt}*self.rhs,self._linalg_solve,self._linalg_solve_kwargs)")]
+        if val not in wants:
+            if _ct(dt)[1:-1] not in val:
+                problems.append("time step is not the difference of the two levels of this step")
+            elif up.replace(" ", "") not in val.replace(" ", ""):
+                problems.append("previous level is not column idx")
             else:
-                amat = [norm(a_.value) for t_, a_ in LS if isinstance(a_, ast.Assign) and norm(a_.value).replace(" ", "") in (f"np.eye(len({up}))-{dt}*self.diff_op",)]
-                ok = vv.startswith(f"self._solve_linear_system(I-{dt}*self.diff_op,{up}+{dt}*self.rhs,") or \
-                    (bool(amat) and any(vv.startswith(f"self._solve_linear_system({path_of(a_.targets[0])},{up}+{dt}*self.rhs,") for t_, a_ in LS
-                                        if isinstance(a_, ast.Assign) and norm(a_.value).replace(" ", "") == f"np.eye(len({up}))-{dt}*self.diff_op"))
-            if not ok:
-                problems.append(f"{kind}-Euler recurrence is `{unparse(upd.value)[:90]}`, not the documented one")
-            order = [a_ for t_, a_ in LS]
-            asm_i = [k for k, (t_, a_) in enumerate(LS) if t_ == f"self.assemble_step({tt})"]
-            upd_i = [k for k, (t_, a_) in enumerate(LS) if a_ is upd]
-            if asm_i and upd_i and asm_i[0] > upd_i[0]:
-                problems.append("assembly does not precede the use of the operator in the update")
-        chk.add("C18-R2", f"{inst}/{kind}_euler", not problems, site(repo, lp), f"{kind} Euler: {want_iter}, dt from the two levels of the step, assemble_step(t) before the update",
-                "; ".join(problems), lp)
+                problems.append(f"{kind}-Euler recurrence is `{val[:140]}`, not the documented one")
+        asm_i = [k for k, st in enumerate(lp.body) if isinstance(st, ast.Expr) and _norm(st.value) == f"self.assemble_step({tt})"]
+        any_asm = [k for k, st in enumerate(lp.body) if isinstance(st, ast.Expr) and _norm(st.value).startswith("self.assemble_step(")]
+        if not asm_i:
+            problems.append("operator/source are not re-assembled at the loop's time level in every step" if it == want_iter or not any_asm
+                            else f"operator/source are assembled at `{_norm(lp.body[any_asm[0]].value)}`, not at the loop's time level")
+        elif asm_i[0] > k_upd:
+            problems.append("assembly does not precede the use of the operator in the update")
+        chk.add("C18-R2", f"{inst}/{kind}_euler", not problems, site(repo, sv), f"{kind} Euler: {want_iter}, dt from the two levels of the step, assemble_step(t) before the update",
+                "; ".join(problems), sv)
     rets = [n for n in strip_docstring(sv.body) if isinstance(n, ast.Return)]
     chk.add("C18-R2", inst + "/return", len(rets) == 1 and _norm(rets[0].value).startswith(f"({u},"), site(repo, sv), "returns (u, info)", "solve does not return (u, info)", sv)
 
 
 def _r3(chk, repo):
+    import itertools
     base = repo.cls(f"{PDE}:PDE")
     for name, other in (("grid_sol", "self.grid_obs"), ("grid_obs", "self.grid_sol")):
         p = base.props.get(name)
@@ -173,31 +211,58 @@ def _r3(chk, repo):
         chk.add("C18-R3", f"{base.qual}.@{name}=", ok, site(repo, p.setter), "recomputes _grids_equal against the other grid",
                 f"assigning {name} does not recompute the grids-equal flag: observe() would keep restricting instead of interpolating after the grid changed", p.setter)
     cg = repo.method(base, "_compare_grid")[1]
-    t = _norm(cg)
-    ok = "ifgrid1isNoneorgrid2isNone:returnTrue" in t and "equal_arrays=(grid1==grid2).all()" in t and "equal_arrays=False" in t and "ifm==n:" in t
-    chk.add("C18-R3", f"{base.qual}._compare_grid", ok, site(repo, cg), "None -> equal; same length -> elementwise all-equal; else different", "_compare_grid semantics changed", cg)
+    g1, g2 = func_params(cg)[:2]
+    atoms = [f"{g1} is None", f"{g2} is None", f"len({g1})==len({g2})"]
+    tb = _tbl(repo, base, cg, atoms)
+    # equal lengths may also be spelled with the operands swapped or as a negated inequality: give the walk all spellings
+    from ..pathtable import walk
+    from ..pattern import norm as pn
+    from .common import canon_fn
+    cgv = canon_fn(repo, base, cg, 4)
+    bad, und = [], []
+    import itertools
+    for n1, n2, same in itertools.product((True, False), repeat=3):
+        val = {_ct(f"{g1} is None"): n1, _ct(f"{g2} is None"): n2, _ct(f"{g1} is not None"): not n1, _ct(f"{g2} is not None"): not n2}
+        for a_, b_ in ((g1, g2), (g2, g1)):
+            val[_ct(f"len({a_})==len({b_})")] = same
+            val[_ct(f"len({a_})!=len({b_})")] = not same
+        kind, res = walk(cgv, val, pn)
+        if kind == "unknown":
+            und.append(res)
+            continue
+        got = _ct(unparse(res)) if kind == "return" else kind
+        want = "True" if (n1 or n2) else ((_ct(f"({g1}=={g2}).all()"), _ct(f"({g2}=={g1}).all()"), _ct(f"np.all({g1}=={g2})")) if same else ("False",))
+        if got not in (want if isinstance(want, tuple) else (want,)):
+            bad.append(f"[grid1 None={n1}, grid2 None={n2}, same length={same}] returns `{got}`")
+    ok = not bad and not und
+    chk.decide("C18-R3", f"{base.qual}._compare_grid", ok, not und, site(repo, cg), "None -> equal; same length -> elementwise all-equal; else different", "_compare_grid semantics changed", cg)
     ge = base.props.get("grids_equal")
     ok = ge is not None and [_norm(s) for s in ge.getter.body] == ["returnself._grids_equal"]
     chk.add("C18-R3", f"{base.qual}.@grids_equal", ok, site(repo, ge.getter) if ge else "", "reads the flag", "grids_equal does not read the flag")
     ss = repo.cls(f"{PDE}:SteadyStateLinearPDE")
     ob = repo.method(ss, "observe")[1]
-    g = CFG(ob)
     sol = func_params(ob)[1]
-    restr = [n for n in g.nodes if n.ast is not None and _norm(n.ast) == f"solution_obs={sol}"]
-    interp = [n for n in g.nodes if n.ast is not None and _norm(n.ast) == f"solution_obs=interp1d(self.grid_sol,{sol},kind='quadratic')(self.grid_obs)"]
-    omap = [n for n in g.nodes if n.ast is not None and _norm(n.ast) == "solution_obs=self.observation_map(solution_obs)"]
+    obv = canon_fn(repo, ss, ob, 4)
     problems = []
-    if len(restr) != 1 or ("self.grids_equal", "T") not in {(_norm(t.ast), lab) for t, lab in g.guards_of(restr[0])}:
-        problems.append("restriction without interpolation is not limited to coinciding grids")
-    if len(interp) != 1 or ("self.grids_equal", "F") not in {(_norm(t.ast), lab) for t, lab in g.guards_of(interp[0])}:
-        problems.append("interpolation grid_sol -> grid_obs is missing for differing grids")
-    if len(omap) != 1 or ("self.observation_mapisnotNone", "T") not in {(_norm(t.ast), lab) for t, lab in g.guards_of(omap[0])}:
-        problems.append("observation map is not applied when given")
-    elif restr and interp and not (g.reaches(restr[0], omap[0]) and g.reaches(interp[0], omap[0])):
-        problems.append("observation map is not applied after both branches")
-    rets = g.returns()
-    if len(rets) != 1 or _norm(rets[0].ast.value) != "solution_obs":
-        problems.append("does not return the observed solution")
+    INT = f"interp1d(self.grid_sol,{sol},kind='quadratic')(self.grid_obs)"
+    for eq, om in itertools.product((True, False), repeat=2):
+        val = {_ct("self.grids_equal"): eq, _ct("self.observation_map is not None"): om, _ct("self.observation_map is None"): not om}
+        kind, res = walk(obv, val, pn)
+        base_e = sol if eq else INT
+        want = _ct(f"self.observation_map({base_e})") if om else _ct(base_e)
+        got = _ct(unparse(res)) if kind == "return" else kind
+        if kind == "unknown":
+            problems.append(f"not decidable: {res}")
+        elif got != want:
+            if eq and INT.split("(")[0] in got:
+                problems.append("restriction without interpolation is not limited to coinciding grids")
+            elif not eq and "interp1d" not in got:
+                problems.append("interpolation grid_sol -> grid_obs is missing for differing grids")
+            elif om and "self.observation_map(" not in got:
+                problems.append("observation map is not applied when given")
+            else:
+                problems.append(f"[grids equal={eq}, observation map={om}] returns `{got[:100]}`")
+    problems = sorted(set(problems))
     chk.add("C18-R3", f"{ss.qual}.observe", not problems, site(repo, ob), "restrict iff grids equal, else quadratic interpolation; then observation map", "; ".join(problems), ob)
     td = repo.cls(f"{PDE}:TimeDependentLinearPDE")
     ob = repo.method(td, "observe")[1]
@@ -238,24 +303,26 @@ def _r3(chk, repo):
 def _r4(chk, repo):
     lp = repo.cls(f"{PDE}:LinearPDE")
     fn = repo.method(lp, "_solve_linear_system")[1]
-    g = CFG(fn)
     A, b, solve, kw = func_params(fn)[1:5]
-    S = {_norm(n.ast): n for n in g.nodes if n.ast is not None and n.kind == "stmt"}
-    problems = []
-    if f"returned_values={solve}({A},{b},**{kw})" not in S:
-        problems.append("solver is not called as linalg_solve(A, b, **kwargs)")
-    t = [x for x in g.tests() if _norm(x.ast) == "isinstance(returned_values,tuple)"]
-    if len(t) != 1:
-        problems.append("tuple test missing")
-    else:
-        a = S.get("solution=returned_values[0]")
-        i = S.get("info=returned_values[1:]")
-        c = S.get("solution=returned_values")
-        if a is None or i is None or not g.requires_edge(a, t[0], "T") or not g.requires_edge(i, t[0], "T"):
-            problems.append("for tuple results the solution is not the first returned value (info the rest)")
-        if c is None or not g.requires_edge(c, t[0], "F"):
-            problems.append("non-tuple result is not returned as the solution")
-    rets = g.returns()
-    if len(rets) != 1 or _norm(rets[0].ast.value) != "(solution,info)":
-        problems.append("does not return (solution, info)")
-    chk.add("C18-R4", f"{lp.qual}._solve_linear_system", not problems, site(repo, fn), "x, *info = linalg_solve(A, b, **kwargs)", "; ".join(problems), fn)
+    from .common import canon_fn
+    from ..pathtable import walk
+    from ..pattern import norm as pn
+    v = canon_fn(repo, lp, fn, 1)
+    CALL = f"{solve}({A},{b},**{kw})"
+    problems, und = [], []
+    for is_tuple in (True, False):
+        kind, res = walk(v, {_ct(f"isinstance({CALL},tuple)"): is_tuple}, pn)
+        if kind != "return":
+            und.append((kind, res))
+            continue
+        got = _ct(unparse(res))
+        want = _ct(f"({CALL}[0],{CALL}[1:])") if is_tuple else _ct(f"({CALL},None)")
+        if got != want:
+            if CALL.split("(")[0] + "(" not in got:
+                problems.append("solver is not called as linalg_solve(A, b, **kwargs)")
+            elif is_tuple:
+                problems.append(f"for tuple results the solution is not the first returned value (info the rest): `{got[:100]}`")
+            else:
+                problems.append(f"non-tuple result is not returned as (solution, None): `{got[:100]}`")
+    chk.decide("C18-R4", f"{lp.qual}._solve_linear_system", not problems and not und, not und, site(repo, fn), "x, *info = linalg_solve(A, b, **kwargs)",
+               "; ".join(problems) or str(und[:1]), fn)
